@@ -236,7 +236,7 @@ func (d *drv) settle(ev string) error {
 		return server.VerifFSMSync(d.srv.B, d.srv.VRF, d.p.Addr, d.idx, to) == nil
 	}
 	if d.connUsable() {
-		r := d.s.Sync()
+		r := m.Sync(d.s)
 		if !r.Idle && !r.Closed {
 			return fmt.Errorf("no synchronisation: %v", r)
 		}
@@ -536,15 +536,15 @@ func main() {
 				}
 				return s
 			}
-			for i := 0; i < r.N(1500, 20000); i++ {
+			for i := 0; i < r.N(1500, 12000); i++ {
 				add(ccase{Prelude: preludes[rng.IntN(len(preludes))], Events: pick(base, m.Events)})
 			}
-			for i := 0; i < r.N(1000, 20000); i++ {
+			for i := 0; i < r.N(1000, 12000); i++ {
 				add(ccase{Prelude: []string{"", "openSent", "established"}[rng.IntN(3)], Events: pick(5+rng.IntN(4), m.Events)})
 			}
 			// timer sequences
 			withTimers := append(append([]string(nil), m.Events...), m.EvWaitShort, m.EvWaitShort, m.EvWaitHold)
-			for i := 0; i < r.N(300, 10000); i++ {
+			for i := 0; i < r.N(300, 6000); i++ {
 				s := pick(2+rng.IntN(3), withTimers)
 				s[rng.IntN(len(s))] = []string{m.EvWaitShort, m.EvWaitShort, m.EvWaitHold}[rng.IntN(3)]
 				add(ccase{Hold3: true, Prelude: []string{"openSent", "openConfirm", "established", "established"}[rng.IntN(4)], Events: s})
